@@ -161,19 +161,19 @@ Proof.
 Qed.
 
 (* one more port on the service of the builder *)
-Lemma port_step fl g fac nsn os name nid0 ty pure s s1 r :
+Lemma port_step fl g fac nsn os cached name nid0 ty pure s s1 r :
   closed g -> fs_ok g fac nsn os -> sg s = FS g fac nsn os ->
-  add_interface_cached fl (nid nsn) [] name nid0 (Some ty) pure s = (s1, r) ->
+  add_interface_cached fl (nid nsn) cached name nid0 (Some ty) pure s = (s1, r) ->
   match r with
   | Err _ => sg s1 = FS g fac nsn os
   | Ok _ => exists o, sg s1 = FS g fac nsn (os ++ [o]) /\ fs_ok g fac nsn (os ++ [o])
   end.
 Proof.
-  intros Hcl F Hsg H. unfold add_interface_cached in H. simpl in H.
-  unfold bind at 1 in H. unfold ret at 1 in H.
+  intros Hcl F Hsg H. unfold add_interface_cached in H.
   assert (HclS : closed (sg s)) by (rewrite Hsg; apply FS_closed; auto).
   destruct r as [p|e].
-  - destruct (new_interface_shape _ _ _ _ _ _ _ _ _ HclS H) as (Hnew & Hs1 & _ & _).
+  - apply bind_ok in H as (s' & u & H1 & H). apply guard_ok in H1 as [-> _].
+    destruct (new_interface_shape _ _ _ _ _ _ _ _ _ HclS H) as (Hnew & Hs1 & _ & _).
     rewrite Hsg in Hnew, Hs1.
     exists (mkNode p cCP name ty 0). split.
     + rewrite Hs1. unfold FS; simpl. rewrite map_app. simpl. unfold orphan_edge at 2; simpl.
@@ -186,6 +186,8 @@ Proof.
         apply NoDup_snoc; auto.
       * intros o Hin. apply in_app_iff in Hin as [Hin|[<-|[]]]; auto.
   - rewrite <- Hsg.
+    apply bind_err_cases in H as [H|(s' & u & H1 & H)]; [exact (no_mut_guard _ _ _ _ _ H)|].
+    apply guard_ok in H1 as [-> _].
     refine (new_interface_atomic fl name nid0 (nid nsn) (Some ty) pure s s1 e _ H).
     unfold parent_found. rewrite Hsg. apply parent_found_In.
     + rewrite ids_FS. apply in_app_iff. right. right. left. reflexivity.
@@ -194,33 +196,33 @@ Qed.
 
 (* ---------------------------------------------------------------- the loops fail in a state the handler undoes *)
 Lemma facility_ports_fail fl g fac nsn with_id d_intk : closed g ->
-  forall ports k os s s1 e, fs_ok g fac nsn os -> sg s = FS g fac nsn os ->
-  facility_ports fl (nid nsn) ports with_id d_intk k s = (s1, Err e) ->
+  forall ports cached k os s s1 e, fs_ok g fac nsn os -> sg s = FS g fac nsn os ->
+  facility_ports fl (nid nsn) cached ports with_id d_intk k s = (s1, Err e) ->
   exists os', sg s1 = FS g fac nsn os' /\ fs_ok g fac nsn os'.
 Proof.
-  intros Hcl. induction ports as [|p ports IH]; intros k os s s1 e F Hsg H; simpl in H.
+  intros Hcl. induction ports as [|p ports IH]; intros cached k os s s1 e F Hsg H; simpl in H.
   - discriminate.
   - unfold bind at 1 in H.
-    destruct (add_interface_cached fl (nid nsn) [] (fp_name p) (if with_id then Some (nth k d_intk 0) else None)
+    destruct (add_interface_cached fl (nid nsn) cached (fp_name p) (if with_id then Some (nth k d_intk 0) else None)
                                    (Some tFacilityPort) (fp_pure p) s) as [s2 r] eqn:E.
-    assert (P := port_step fl g fac nsn os _ _ _ _ s s2 r Hcl F Hsg E).
+    assert (P := port_step fl g fac nsn os _ _ _ _ _ s s2 r Hcl F Hsg E).
     destruct r as [x|e2].
     + destruct P as (o & Hs2 & F2). eapply IH; eauto.
     + inversion H; subst. eauto.
 Qed.
 
 Lemma switch_ports_fail fl g fac nsn with_id d_intk pure_port : closed g ->
-  forall n k os s s1 e, fs_ok g fac nsn os -> sg s = FS g fac nsn os ->
-  switch_ports fl (nid nsn) n k with_id d_intk pure_port s = (s1, Err e) ->
+  forall n cached k os s s1 e, fs_ok g fac nsn os -> sg s = FS g fac nsn os ->
+  switch_ports fl (nid nsn) cached n k with_id d_intk pure_port s = (s1, Err e) ->
   exists os', sg s1 = FS g fac nsn os' /\ fs_ok g fac nsn os'.
 Proof.
-  intros Hcl. induction n as [|n IH]; intros k os s s1 e F Hsg H; simpl in H.
+  intros Hcl. induction n as [|n IH]; intros cached k os s s1 e F Hsg H; simpl in H.
   - discriminate.
   - unfold bind at 1 in H.
-    destruct (add_interface_cached fl (nid nsn) [] (port_name k)
+    destruct (add_interface_cached fl (nid nsn) cached (port_name k)
                 (if with_id then Some (nth (Nat.pred k) d_intk 0) else None)
                 (Some tDedicatedPort) pure_port s) as [s2 r] eqn:E.
-    assert (P := port_step fl g fac nsn os _ _ _ _ s s2 r Hcl F Hsg E).
+    assert (P := port_step fl g fac nsn os _ _ _ _ _ s s2 r Hcl F Hsg E).
     destruct r as [x|e2].
     + destruct P as (o & Hs2 & F2). eapply IH; eauto.
     + inversion H; subst. eauto.
@@ -307,10 +309,10 @@ Proof.
       as (nsn & Hid & Hs3 & F). subst facs. exists nsn.
     destruct ports as [[|p l]|].
     + apply bind_err_cases in Ht as [Ht|(s4 & x & _ & Ht)]; [|unfold ret in Ht; discriminate].
-      exists []. split; auto. exact (port_step fl g fac nsn [] _ _ _ _ s3 s2 (Err e2) Hcl F Hs3 Ht).
-    + apply (facility_ports_fail fl g fac nsn _ d_intk Hcl (p :: l) 0%nat [] s3 s2 e2 F Hs3 Ht).
+      exists []. split; auto. exact (port_step fl g fac nsn [] _ _ _ _ _ s3 s2 (Err e2) Hcl F Hs3 Ht).
+    + apply (facility_ports_fail fl g fac nsn _ d_intk Hcl (p :: l) [] 0%nat [] s3 s2 e2 F Hs3 Ht).
     + apply bind_err_cases in Ht as [Ht|(s4 & x & _ & Ht)]; [|unfold ret in Ht; discriminate].
-      exists []. split; auto. exact (port_step fl g fac nsn [] _ _ _ _ s3 s2 (Err e2) Hcl F Hs3 Ht).
+      exists []. split; auto. exact (port_step fl g fac nsn [] _ _ _ _ _ s3 s2 (Err e2) Hcl F Hs3 Ht).
 Qed.
 
 (* add_switch with the rollback of proposed_fixes/C09-5.patch *)
@@ -334,7 +336,7 @@ Proof.
   - left. exact (service_step_cases fl g fac _ _ _ _ fr s2 (Err e2) Hcl Hnd Hnew eq_refl Ht).
   - right. destruct (service_step_cases fl g fac _ _ _ _ fr s3 (Ok sws) Hcl Hnd Hnew eq_refl H3)
       as (nsn & Hid & Hs3 & F). subst sws. exists nsn.
-    apply (switch_ports_fail fl g fac nsn _ d_intk pure_port Hcl nports 1%nat [] s3 s2 e2 F Hs3 Ht).
+    apply (switch_ports_fail fl g fac nsn _ d_intk pure_port Hcl nports [] 1%nat [] s3 s2 e2 F Hs3 Ht).
 Qed.
 
 (* add_switch without it: atomic only when the node step itself is rejected *)
